@@ -215,6 +215,11 @@ PROPS["C17"]["rule"] += (" A fifth of the runs are E1 runs (seeded task schedule
                          "merge and publish concurrently, so that identical entry and manifest blocks are written at overlapping times (block writes are scheduling points); "
                          "oracle: what an operation returned was written before it returned, and every block after the blocks it links to.")
 
+# C17 also in virtual time: the reload of an acknowledged identifier overlapping with a load that is given up
+PROPS["C17"].setdefault("also", []).append(dict(prop="C17T", variant="vt", share=0.1))
+PROPS["C17"]["rule"] += (" A tenth of the worker slots runs C17T (go1.26.8 synctest bubble): a reload overlaps in virtual time with another load on the same store that its caller gives up; "
+                         "the reload must rebuild exactly the log it was asked for.")
+
 # C09 also in virtual time: two loads overlapping on one store, one of them given up by its caller
 PROPS["C09"].setdefault("also", []).append(dict(prop="C09T", variant="vt", share=0.15))
 PROPS["C09"]["rule"] += (" An eighth of the worker slots runs C09T (go1.26.8 synctest bubble): two loads overlap in virtual time on one store, the first is given up "
